@@ -85,8 +85,8 @@ PROPS = {
                 "variants.Variants in-process; non-trivial = at least one coding feature or a gapped reference row",
     },
     "C05": {
-        "extra_imports": ["Gofasta.Lemmas.SamIndels"],
-        "extra_theorems": ["Gofasta.Lemmas.SamIndels.sam_ins", "Gofasta.Lemmas.SamIndels.sam_del", "Gofasta.Lemmas.SamIndels.sam_del_mem", "Gofasta.Lemmas.SamIndels.single_ins_op_exact", "Gofasta.Lemmas.SamIndels.single_del_op", "Gofasta.Lemmas.SamIndels.ins_spec_all", "Gofasta.Lemmas.SamIndels.del_spec_all"],
+        "extra_imports": ["Gofasta.Props.Cols", "Gofasta.Lemmas.SamIndels"],
+        "extra_theorems": ["Gofasta.Props.Cols.sam_skip", "Gofasta.Lemmas.SamIndels.sam_ins", "Gofasta.Lemmas.SamIndels.sam_del", "Gofasta.Lemmas.SamIndels.sam_del_mem", "Gofasta.Lemmas.SamIndels.single_ins_op_exact", "Gofasta.Lemmas.SamIndels.single_del_op", "Gofasta.Lemmas.SamIndels.ins_spec_all", "Gofasta.Lemmas.SamIndels.del_spec_all"],
         "cli": True,
         "streams": {"C05": (500, 8000)},
         "thorough_seeds": 3,
@@ -115,8 +115,8 @@ PROPS = {
     },
     "C01": {
         "cli": True,
-        "extra_imports": ["Gofasta.Lemmas.SamWalk", "Gofasta.Lemmas.SamFlatten", "Gofasta.Lemmas.SamRoundTrip", "Gofasta.Lemmas.FromBytes"],
-        "extra_theorems": ["Gofasta.Lemmas.walk_cov", "Gofasta.Lemmas.walk_row", "Gofasta.Lemmas.covList_ge", "Gofasta.Lemmas.covList_lt",
+        "extra_imports": ["Gofasta.Props.Cols", "Gofasta.Lemmas.SamWalk", "Gofasta.Lemmas.SamFlatten", "Gofasta.Lemmas.SamRoundTrip", "Gofasta.Lemmas.FromBytes"],
+        "extra_theorems": ["Gofasta.Props.Cols.sam_skip", "Gofasta.Lemmas.walk_cov", "Gofasta.Lemmas.walk_row", "Gofasta.Lemmas.covList_ge", "Gofasta.Lemmas.covList_lt",
                            "Gofasta.Lemmas.single_record_row", "Gofasta.Lemmas.swapNs_starRow", "Gofasta.Lemmas.swapGaps_starRow",
                            "Gofasta.Lemmas.flatten_column", "Gofasta.Lemmas.seqFromBlock_starRow", "Gofasta.Lemmas.query_row",
                            "Gofasta.Lemmas.toMultiAlign_total",
@@ -130,8 +130,8 @@ PROPS = {
     },
     "C02": {
         "cli": True,
-        "extra_imports": ["Gofasta.Lemmas.PairSingle", "Gofasta.Lemmas.PairSpec", "Gofasta.Lemmas.PairMulti", "Gofasta.Lemmas.PairSkipIns", "Gofasta.Lemmas.FromBytes"],
-        "extra_theorems": ["Gofasta.Lemmas.FromBytes.toPairAlign_from_bytes", "Gofasta.Lemmas.FromBytes.toPairAlign_keepIns_from_bytes", "Gofasta.Lemmas.PairSkipIns.toPairAlign_spec", "Gofasta.Lemmas.PairSkipIns.pairOfBlock_skipIns", "Gofasta.Lemmas.PairSkipIns.walkWithRef_noIns_query", "Gofasta.Lemmas.PairMulti.blockToSeqPair_eq_specPair", "Gofasta.Lemmas.PairMulti.multi_ref_lossless", "Gofasta.Lemmas.PairMulti.multi_lengths",
+        "extra_imports": ["Gofasta.Props.Cols", "Gofasta.Lemmas.PairSingle", "Gofasta.Lemmas.PairSpec", "Gofasta.Lemmas.PairMulti", "Gofasta.Lemmas.PairSkipIns", "Gofasta.Lemmas.FromBytes"],
+        "extra_theorems": ["Gofasta.Props.Cols.sam_skip", "Gofasta.Lemmas.FromBytes.toPairAlign_from_bytes", "Gofasta.Lemmas.FromBytes.toPairAlign_keepIns_from_bytes", "Gofasta.Lemmas.PairSkipIns.toPairAlign_spec", "Gofasta.Lemmas.PairSkipIns.pairOfBlock_skipIns", "Gofasta.Lemmas.PairSkipIns.walkWithRef_noIns_query", "Gofasta.Lemmas.PairMulti.blockToSeqPair_eq_specPair", "Gofasta.Lemmas.PairMulti.multi_ref_lossless", "Gofasta.Lemmas.PairMulti.multi_lengths",
                            "Gofasta.Lemmas.PairMulti.multi_gap_count", "Gofasta.Lemmas.PairMulti.multi_skip_insertions", "Gofasta.Lemmas.PairMulti.toPairAlign_keepIns_spec",
                            "Gofasta.Lemmas.PairSpec.specPair_lossless", "Gofasta.Lemmas.PairSpec.specPair_skip_insertions",
                            "Gofasta.Lemmas.PairSpec.specPair_lengths", "Gofasta.Lemmas.blockToSeqPair_single", "Gofasta.Lemmas.single_ref_lossless", "Gofasta.Lemmas.single_lengths",
